@@ -1,6 +1,7 @@
 package props
 
 import (
+	"context"
 	"fmt"
 	"sort"
 	"strings"
@@ -455,7 +456,7 @@ func c13RunHistory(r *ev.Reporter, f forest, perm, plan []int) {
 			return
 		}
 		_ = terr
-		for el.Tick(nil) { //nolint
+		for el.Tick(context.Background()) {
 		}
 	}
 	// committed chain = path from genesis to last
